@@ -110,3 +110,27 @@ func (d dumpInfo) trimmed() []string {
 	add(d.Waiters, 3)
 	return out
 }
+
+// busyHavoc returns the stacks of goroutines that are inside the code under test and not
+// parked in one of its idle places (waiting for the next websocket message, accepting
+// connections): diagnosis material for a stall that SendEvent does not explain.
+func busyHavoc(raw string, max int) []string {
+	var out []string
+	for _, blk := range strings.Split(raw, "\n\n") {
+		if !strings.Contains(blk, "Havoc/") {
+			continue
+		}
+		if strings.Contains(blk, "websocket.(*Conn).ReadMessage(") || strings.Contains(blk, ".Accept(") ||
+			strings.Contains(blk, "(*Teamserver).Start(") && strings.Contains(blk, "chan receive") {
+			continue
+		}
+		if len(blk) > 2000 {
+			blk = blk[:2000] + "…"
+		}
+		out = append(out, blk)
+		if len(out) >= max {
+			break
+		}
+	}
+	return out
+}
